@@ -59,6 +59,19 @@ def describe(clause, row, rows, line):
     return key, what
 
 
+def describe_graph(clause, row, rows, line):
+    pre = {a["a"]: a.get("delegatee") for a in (row.get("pre") or {}).get("accts", [])} if row.get("pre") else {}
+    who = sorted(k for k, v in row.get("verdicts", {}).items() if v == "roots-mismatch")
+    if row.get("flags", 0) & 32:
+        key = "%s:epoch-block:delegation-chain-map-order" % clause
+    else:
+        key = "%s:delegation-graph-scenario" % clause
+    what = ("epoch block %s of delegation-graph scenario %s: replicas %s computed other roots than the proposer (ApplyNewEpoch applies "
+            "per-identity results in map order and applyOnState reads the delegatee's delegatee); delegations before the block %s" % (
+                row.get("h"), row.get("hid"), who, json.dumps({k: v for k, v in pre.items() if v})))
+    return key, what
+
+
 def main(ctx):
     quick = ctx.tier == "quick"
     r, sched, samples = export_schedules(ctx, 8 if quick else 64)
@@ -67,6 +80,32 @@ def main(ctx):
     if stats is None:
         raise vlib.CheckError("driver failed:\n" + out[-3000:])
     ok, info = chainlib.validate(ctx, trace, "Trace_Replicas.tla", "Trace_Replicas.cfg", MINE, "C01", describe)
+
+    # order-sensitive epoch-loop configurations: EpochLoop.tla (canonical order: Confluent holds) exports every delegation
+    # graph over 4 identities for which SOME pair of visiting orders of the ApplyNewEpoch loop disagrees; each graph is built
+    # with real DelegateTx transactions, all members are validated in the same epoch, and the epoch block is evaluated by
+    # the proposer and 6 replicas (independent samples of Go's map order)
+    g = chainlib.model_run(ctx, "EpochLoop.tla", "MC_EpochLoop.cfg")
+    graphs = [e for e in g.exports if "graph" in e]
+    if not graphs:
+        raise vlib.CheckError("EpochLoop exported no order-sensitive graph")
+    rnd = random.Random(ctx.seed)
+    rnd.shuffle(graphs)
+    gfile = ctx.path("graphs.json")
+    with open(gfile, "w") as f:
+        for e in graphs[: (8 if quick else len(graphs))] * (1 if quick else 3):
+            f.write(json.dumps(e) + "\n")
+    drv = vlib.build_driver(ctx, "d_chain", clocks=chainlib.CLOCKS)
+    gtrace = ctx.path("graphs.ndjson")
+    p = vlib.run_driver(ctx, drv, ["-out", gtrace, "-blocks", "120", "-graphs", gfile], timeout=3000)
+    if p.returncode != 0:
+        raise vlib.CheckError("driver failed on the delegation-graph scenarios:\n" + (p.stdout or "")[-2000:])
+    grows = vlib.read_ndjson(gtrace)
+    epochs_g = sum(1 for x in grows if x.get("ev") == "Block" and x.get("flags", 0) & 32)
+    if epochs_g == 0:
+        raise vlib.CheckError("no delegation-graph scenario reached its epoch block (dead scenario)")
+    okg, infog = chainlib.validate(ctx, gtrace, "Trace_Replicas.tla", "Trace_Replicas.cfg", MINE, "C01", describe_graph)
+    ok = ok and okg
 
     def mutate(rows):
         for row in rows:
@@ -80,7 +119,7 @@ def main(ctx):
     cov = {"states": r.distinct, "transitions": r.generated,
            "traces_validated_against_impl": stats.get("histories", 0),
            "blocks_applied": stats.get("blocks", 0), "replicas_per_block": 6,
-           "samples": samples,
+           "samples": samples, "order_sensitive_graphs_replayed": epochs_g, "epochloop_model_states": g.distinct,
            "rule": "history-shape schedules exported by TLC from Replicas.tla (3 scheduled replicas x 6 pre-history kinds x 4-block "
                    "cycle, at most one deviating replica per block) drive 6 real replicas (2 in other time zones) through seeded random "
                    "histories; every block applied on every replica; Agreement evaluated by TLC on the reported observations",
